@@ -29,7 +29,7 @@ SPEC = dict(
          "newline and multi-byte runes) against 4 random token sequences (the literal x4, separators of both classes, prefixes/suffixes of "
          "the literal, its upper-case form) with the same oracle (30%: also as file names); "
          "6 generated candidate sets (content/file-name mixes, equal offsets, nested, overlapping, empty) through "
-         "the real gatherMatches on an or-tree of a substring and a regexp atom; 3 candidate lists (40% lengthened, 30% newline-heavy "
+         "the real gatherMatches on a tree or(substring, and(word, regexp), symbol-regexp) of the four atom kinds gatherMatches collects from; 3 candidate lists (40% lengthened, 30% newline-heavy "
          "contents) through breakMatchesOnNewlines; a generated sampling table through "
          "makeRuneOffsetMap + 4 lookups (incl. offsets on multiples of 100); a 1-4 document shard of runs of 1..4-byte runes "
          "(runs of 60-140 wide runes, 10% plain ASCII) with the builder's stored samples read back, 6 findOffset calls on "
